@@ -250,6 +250,59 @@ def run_func(p, n, mod):
     return uses
 
 
+CROSS_SRC = """from typing import List
+from utype import Schema
+class Box(Schema):
+    parts: List['Part']
+class Part(Schema):
+    %s: int
+"""
+
+
+def cross_module(ck):
+    """two modules that write the same annotation text List['Part'] for their own class Part (typing hands both the same alias object):
+    a module defined after another one has used its class gets the other module's Part -- fixed witness of a recorded finding, judged by
+    Trace_RefUses"""
+    recs, uses, mods = [], [], []
+    tag = "%x" % (id(ck) & 0xffffff)
+    for i, fld in enumerate(("a", "b")):
+        # module i is defined, then used, before the next one is even defined (an import at a later time)
+        m = types.ModuleType("c17cross_%s_%d" % (tag, i))
+        sys.modules[m.__name__] = m
+        mods.append(m)
+        r = {"kind": "valid", "ok": True, "value": "", "echo": canon({"__cls__": "Box", "parts": [{"__cls__": "Part", fld: 1}]}), "exc": []}
+        try:
+            exec(compile(CROSS_SRC % fld, m.__name__, "exec"), m.__dict__)
+            r["value"] = canon(project_named(m.Box(parts=[{fld: "1"}])))
+        except Exception as e:
+            r["ok"], r["exc"] = False, [k.__name__ for k in type(e).__mro__][:4]
+        uses.append(r)
+    for m in mods:
+        sys.modules.pop(m.__name__, None)
+    recs.append({"id": "c17-cross", "uses": uses})
+    res = tlc.judge("Trace_RefUses", "Trace_RefUses.cfg", recs, workers=1)
+    if res.distinct != len(recs):
+        raise MachineryError("trace acceptance (cross-module): TLC visited %d states, expected %d" % (res.distinct, len(recs)))
+    ck.states += res.distinct
+    ck.transitions += res.generated
+    ck.judged(sum(len(x["uses"]) for x in recs))
+    byid = {x["id"]: x for x in recs}
+    for t in res.tagged("VIOL"):
+        ck.violation("C17|%s|same-annotation-text-in-two-modules" % t[2], t[2], {"cross": True, "uses": byid[t[1]]["uses"], "source": CROSS_SRC})
+
+
+def project_named(obj):
+    import utype
+    if isinstance(obj, utype.Schema):
+        d = {"__cls__": type(obj).__name__}
+        for k, v in dict.items(obj):
+            d[str(k)] = project_named(v)
+        return d
+    if isinstance(obj, (list, tuple)):
+        return [project_named(x) for x in obj]
+    return obj if isinstance(obj, (int, str)) else "<%s>" % type(obj).__name__
+
+
 def pattern(p):
     if "F" in p["ents"]:
         return "func:%s%s%s%s|%s|%s" % (p["fscope"], "+future" if p["future"] else "", "+varargs" if p["varargs"] else "", ("+ignore_params" if p["igp"] else "") + ("+generator" if p["gen"] else ""), ">".join(p["ents"]),
@@ -337,6 +390,7 @@ def main():
         ck.violation(key_of(rec["prog"], t[2], use, res), t[2],
                      {"prog": rec["prog"], "source": source(rec["prog"], 0), "use": use["cls"], "result": res,
                       "pattern": pattern(rec["prog"])})
+    cross_module(ck)
     divs = r.tagged("DIV")
     if divs:
         ck.count("divergences", len(divs))
@@ -365,6 +419,11 @@ def main():
 def replay(path):
     d = json.load(open(path))
     rec = d["record"]
+    if rec.get("cross"):
+        ck = Check("C17")
+        cross_module(ck)
+        print("VIOLATION property=C17 replay=%s" % path if ck.violations else "replay: property holds now")
+        return 1 if ck.violations else 0
     uses, err = run_program(rec["prog"], 0)
     print(source(rec["prog"], 0))
     if uses is None:
